@@ -181,7 +181,7 @@ def validate(traces: list[dict]) -> dict:
 def run(rep: common.Reporter, tier: str, prop: str = 'C17') -> dict:
     seed = common.seed()
     docs, r = doclib.layouts(max_lines=2 if tier == 'quick' else 3, accepted_only=True,
-                             devs=('none', 'trail', 'trailinline'), eols=('lf', 'crlf'))
+                             devs=('none', 'trail', 'trailinline'), eols=('lf', 'crlf'), finals=(True, False))
     rng = random.Random(seed)
     more, _ = doclib.layouts(max_lines=3 if tier == 'quick' else 4, accepted_only=True)
     more = [d for d in more if len(d['lines']) == (3 if tier == 'quick' else 4)]
